@@ -36,7 +36,9 @@ def runExportRT (inp out : Json) : Json :=
               ("fails", Json.arr (fails.map afailJson).toArray),
               ("feat", Json.mkObj [("via", Json.str (jstr (jget inp "via"))), ("nvalues", Json.num (valsIn.getD []).length)])]
 where
-  canonValuesUid (vs : List RawValue) : List RawValue := sortBy rawLt vs
+  -- a total order on all six fields: entries that differ only in uid must not keep their input order
+  canonValuesUid (vs : List RawValue) : List RawValue :=
+    sortBy (fun a b => rawLt a b || (!rawLt b a && Str.lt a.uid b.uid)) vs
 
 def runImport (inp out : Json) : Json :=
   let bytes := jstr (jget inp "bytes")
